@@ -7,6 +7,8 @@ from collections import namedtuple, defaultdict
 
 from boltons.statsutils import Stats
 from boltons.iterutils import bucketize
+from werkzeug.wrappers import BaseResponse
+from werkzeug.exceptions import HTTPException as WerkzeugHTTPException
 
 from ..route import POST
 from ..application import Application
@@ -118,7 +120,12 @@ class StatsMiddleware(Middleware):
             resp_mime_type = resp_headers.get('Content-Type', '').partition(';')[0]
         except Exception as e:
             # see Werkzeug #388
-            resp_status = repr(getattr(e, 'code', e.__class__.__name__))
+            # the code of an HTTPException (clastic's or werkzeug's), the
+            # type of anything else: other exceptions have "code"s, too
+            if isinstance(e, (BaseResponse, WerkzeugHTTPException)):
+                resp_status = repr(getattr(e, 'code', e.__class__.__name__))
+            else:
+                resp_status = repr(e.__class__.__name__)
             resp_mime_type = getattr(e, 'content_type', '').partition(';')[0]
             raise
         finally:
